@@ -308,11 +308,19 @@ def def_yaml_block(d):
 
 
 def comment_every_line(lines, tag="c"):
-    """a comment line (same indentation) in front of every line: whatever node it attaches to, it is documentation"""
+    """a comment line (same indentation) in front of every line — or, for tag = (text, probability, seed), in front of a
+    random subset of the lines (a documented node under an undocumented one and the reverse): whatever node a comment
+    attaches to, it is documentation"""
+    import random as _random
+    prob, rng = 1.0, None
+    if isinstance(tag, tuple):
+        tag, prob, seed = tag
+        rng = _random.Random(seed)
     out = []
     for i, ln in enumerate(lines):
         ind = len(ln) - len(ln.lstrip())
-        out.append(" " * ind + f"# {tag}{i} documentation text, with: punctuation [and] {{braces}}")
+        if rng is None or rng.random() < prob:
+            out.append(" " * ind + f"# {tag}{i} documentation text, with: punctuation [and] {{braces}}")
         out.append(ln)
     return out
 
